@@ -453,7 +453,7 @@ pub fn run(args: &Args) {
         ];
         if args.num("faults", 1) != 0 {
             for (kind, bytes, m128) in files.iter() {
-                for k in 0..40 {
+                for k in 0..120 {
                     for f in [Fault::ErrAt(k), Fault::ZeroAt(k)] {
                         cases.push((format!("fault:{kind}:{f:?}"), kind.to_string(), bytes.clone(), *m128, f, 0));
                     }
